@@ -46,7 +46,6 @@ package main
 
 import (
 	"fmt"
-	"strings"
 	"go/token"
 	"go/types"
 	"os"
@@ -585,15 +584,18 @@ func runFrame(fr *frame) {
 		default:
 			// engine conditions (path end, abort, engine error, interpreter
 			// crash) are not visible to the target program
-			if e, ok := r.(error); ok {
-				if _, isEng := r.(engineError); !isEng {
-					if _, isPE := r.(pathEnd); !isPE {
-						r = engineError{"interpreter crash in " + fr.fn.String() + ": " + e.Error() + "\n" + stackSnippet()}
-					}
+			switch rr := r.(type) {
+			case engineError:
+				if len(rr.msg) < 6000 {
+					r = engineError{rr.msg + "\n   in " + fr.fn.String() + loc(fr.fn.Prog.Fset, fr.curPos)}
 				}
-			}
-			if ee, ok := r.(engineError); ok && len(ee.msg) < 1500 && !strings.Contains(ee.msg, "interpreter crash") {
-				r = engineError{ee.msg + "\n   in " + fr.fn.String() + loc(fr.fn.Prog.Fset, fr.curPos)}
+			case pathEnd, abortPath, exitPanic:
+			default:
+				st := stackSnippet()
+				if len(st) > 2500 {
+					st = st[:2500]
+				}
+				r = engineError{fmt.Sprintf("interpreter crash: %v\n%s\n   in %s%s", rr, st, fr.fn.String(), loc(fr.fn.Prog.Fset, fr.curPos))}
 			}
 			panic(r)
 		}
